@@ -63,6 +63,9 @@ type cluster struct {
 	nextCID  int
 	verbose  bool
 	acksSeen int
+	// stallAtRepl: a stall of the partition leader that begins when it next answers a fetch with messages
+	stallAtRepl     time.Duration
+	stallAtReplSkip int // answers with messages that pass before the armed stall begins
 }
 
 func clusterGen(r *simrt.Rand, tier string, mix []weighted) *hx.Program {
@@ -158,6 +161,24 @@ func (c *cluster) tap(conn *nats.Conn, subject, reply string, data []byte) {
 	if c.verbose {
 		c.trace(conn, subject, reply, data)
 	}
+	if c.stallAtRepl > 0 && !c.h.stop && strings.HasPrefix(subject, "_INBOX.") {
+		// an armed stall of the partition leader takes effect the moment the leader hands messages to a
+		// follower: the follower stores them, its next progress report waits in the stalled leader's queue
+		if src := c.nodeOf(conn.Node()); src != nil {
+			if p := c.partition(src); p != nil && p.isLeading && p.Leader == src.id {
+				if _, _, msgs, err := proto.UnmarshalReplicationResponse(data); err == nil && len(msgs) > 0 {
+					if c.stallAtReplSkip > 0 {
+						c.stallAtReplSkip--
+						goto judged
+					}
+					c.h.s.Logf("stall leader %s for %v (as it answers a follower's fetch with messages)", src.id, c.stallAtRepl)
+					c.h.s.Stall(src.node, c.stallAtRepl)
+					c.stallAtRepl = 0
+				}
+			}
+		}
+	}
+judged:
 	if subject != c.inbox || c.h.stop {
 		return
 	}
@@ -550,6 +571,10 @@ func runCluster(h *h3, hooks clusterHooks) *cluster {
 				h.s.Logf("stall follower %s for %v", f.id, d)
 				h.s.Stall(f.node, d)
 			}
+		case "stalllr":
+			// the leader stalls (4 - 9.5 s) at the moment it next hands messages to a follower
+			c.stallAtRepl = 4*time.Second + time.Duration(op.Arg(0, 0)%12)*500*time.Millisecond
+			c.stallAtReplSkip = int(op.Arg(1, 0)) % 3
 		case "stalll":
 			// a slow partition leader: none of its tasks runs for 1 - 7 s (garbage collection, a swapped-out
 			// process, a saturated disk); it then continues where it was, with its queues full
